@@ -16,9 +16,11 @@
 (*                Interp folds into displayed cells + a final colour.      *)
 (*  ContentGfx    content(), graphics branch: one strip per line; a        *)
 (*                horizontal trim yields blanks.                           *)
-(*  Padding       alignment -> (pad1, pad2), the rule used by BOTH         *)
-(*                BaseImage._format_render (which lays the canvas out) and *)
-(*                content() (which recomputes the split).                  *)
+(*  Padding       alignment AS GIVEN IN THE FORMAT SPEC (near / mid / far /  *)
+(*                absent = documented default centre / middle) -> (pad1,   *)
+(*                pad2): the layout rule of BaseImage._format_render.      *)
+(*  ContentPadding the split content() recomputes from the same alignment; *)
+(*                must agree with Padding for every alignment value.       *)
 (***************************************************************************)
 EXTENDS Naturals, Integers, Sequences, FiniteSets, TLC
 
@@ -79,12 +81,33 @@ Crop(grid, l, t, c, r) == [i \in 1..r |-> CropRow(grid[t + i], l, c)]
 (* alignment                                                                *)
 (* ------------------------------------------------------------------------ *)
 
-\* align: "near" ('<' or '^'), "far" ('>' or '_'), "mid" (centre / middle)
-Padding(align, size, image) ==
+\* align = the alignment AS GIVEN IN THE WIDGET'S FORMAT SPEC:
+\*   "near" ('<' or '^'), "far" ('>' or '_'), "mid" ('|' or '-'),
+\*   "absent" - the format spec names no alignment for this axis ("", "#", "<" has no
+\*   vertical one, ".^" has no horizontal one; UrwidImage(image) has neither).  The widget
+\*   then carries None and the DOCUMENTED DEFAULT applies: centre / middle.
+AlignValues == {"near", "mid", "far", "absent"}
+
+DefaultAlign == "mid"
+Resolve(align) == IF align = "absent" THEN DefaultAlign ELSE align
+
+Split(a, pad) ==
+  CASE a = "near" -> <<0, pad>>
+    [] a = "far" -> <<pad, 0>>
+    [] a = "mid" -> <<pad \div 2, pad - (pad \div 2)>>
+
+\* BaseImage._format_render: how the canvas is LAID OUT (the default is resolved first)
+Padding(align, size, image) == Split(Resolve(align), size - image)
+
+\* content(): how the split is RECOMPUTED from the widget's alignment when a request is
+\* trimmed horizontally - transcribed as the chain the code has: the two explicit off-centre
+\* values are tested, EVERYTHING ELSE (explicit centre/middle AND absent) is the centred split.
+\* ContentIsCrop demands that this agrees with Padding for every value of AlignValues.
+ContentPadding(align, size, image) ==
   LET pad == size - image IN
-  CASE align = "near" -> <<0, pad>>
-    [] align = "far" -> <<pad, 0>>
-    [] OTHER -> <<pad \div 2, pad - (pad \div 2)>>
+  IF align = "near" THEN <<0, pad>>
+  ELSE IF align = "far" THEN <<pad, 0>>
+  ELSE <<pad \div 2, pad - (pad \div 2)>>
 
 (* ------------------------------------------------------------------------ *)
 (* abstract canvas                                                          *)
@@ -106,8 +129,12 @@ CellToks(cv, j, k) ==
   \o <<G(j, k)>>
   \o (IF k = cv.iw THEN <<Rst>> ELSE <<>>)
 
+\* the layout (what the full canvas shows) ...
 HPad(cv) == Padding(cv.ha, cv.W, cv.iw)
 VPad(cv) == Padding(cv.va, cv.H, cv.ih)
+\* ... and the split content() works from
+CHPad(cv) == ContentPadding(cv.ha, cv.W, cv.iw)
+CVPad(cv) == ContentPadding(cv.va, cv.H, cv.ih)
 
 RECURSIVE Concat(_)
 Concat(ss) == IF ss = <<>> THEN <<>> ELSE Head(ss) \o Concat(Tail(ss))
@@ -120,12 +147,16 @@ FullLine(cv, y) ==
   IN IF j < 1 \/ j > cv.ih THEN Rep(Sp, cv.W)
      ELSE Rep(Sp, hp[1]) \o Concat([k \in 1..cv.iw |-> CellToks(cv, j, k)]) \o Rep(Sp, hp[2])
 
+\* the glyph of a blank: a pair like the image glyphs <<j, k>>, so that a blank shown where
+\* an image cell is expected is an invariant VIOLATION (TLC can compare them), not an error
+BlankG == <<0, 0>>
+
 \* What the full canvas shows: the reference grid of displayed cells
 ShownCell(cv, y, x) ==
   LET j == y - VPad(cv)[1]
       k == x - HPad(cv)[1]
   IN IF j \in 1..cv.ih /\ k \in 1..cv.iw THEN [g |-> <<j, k>>, c |-> cv.pat[k]]
-     ELSE [g |-> "sp", c |-> 0]
+     ELSE [g |-> BlankG, c |-> 0]
 
 Shown(cv) == [y \in 1..cv.H |-> [x \in 1..cv.W |-> ShownCell(cv, y, x)]]
 
@@ -134,7 +165,7 @@ RECURSIVE InterpFrom(_, _, _, _)
 InterpFrom(toks, i, cur, acc) ==
   IF i > Len(toks) THEN [cells |-> acc, cur |-> cur]
   ELSE LET t == toks[i] IN
-    CASE t[1] = "sp" -> InterpFrom(toks, i + 1, cur, Append(acc, [g |-> "sp", c |-> cur]))
+    CASE t[1] = "sp" -> InterpFrom(toks, i + 1, cur, Append(acc, [g |-> BlankG, c |-> cur]))
       [] t[1] = "g" -> InterpFrom(toks, i + 1, cur, Append(acc, [g |-> <<t[2], t[3]>>, c |-> cur]))
       [] t[1] = "sgr" -> InterpFrom(toks, i + 1, t[2], acc)
       [] OTHER -> InterpFrom(toks, i + 1, 0, acc)
@@ -149,7 +180,7 @@ ContentText(cv, tl, tt, cols, rows) ==
       ih == cv.ih
       tb == H - tt - rows
       tr == W - tl - cols
-      vp == VPad(cv)
+      vp == CVPad(cv)
       v == CalcTrim(H, ih, tt, vp[1], tb, vp[2])
       npt == v[1]
       tit == v[2]
@@ -158,7 +189,7 @@ ContentText(cv, tl, tt, cols, rows) ==
       empty == ih = tit \/ ih = tib
       partial == tit # ih /\ ih # tib
       padline == Rep(Sp, cols)
-      hp == HPad(cv)
+      hp == CHPad(cv)
       h == CalcTrim(W, iw, tl, hp[1], tr, hp[2])
       npl == h[1]
       til == h[2]
